@@ -17,6 +17,7 @@ pub fn run(entry: &str, v: &Value) -> Option<Result<String, String>> {
         "fleet_wide_broadcast" => fleet_wide_broadcast(v),
         "fleet_health_probe_malformed" => fleet_health_probe_malformed(),
         "ws_default_limits" => rt2(ws_default_limits()),
+        "client_survives_cancel_and_idle" => client_survives_cancel_and_idle(),
         "peer_broadcast_payloads" => peer_broadcast_payloads(),
         "registry_message_bodies" => registry_message_bodies(),
         "client_emission_parity" => client_emission_parity(),
@@ -1455,4 +1456,104 @@ async fn ws_default_limits() -> Result<String, String> {
     c2.call_json(path, &json!({})).await.map_err(|e| format!("the connection was not usable after a local refusal: {e}"))?;
     srv.abort();
     Ok("default-built server and client assume the 16 MiB default; explicit limits are kept and enforced".into())
+}
+
+// ---------------------------------------------------------------------------------------------
+// C06, second half: a call that times out or is cancelled leaves nothing behind and the client
+// keeps serving other calls. (a) WebSocket client with 1, 2 and 3 live handles: a call made through
+// one handle is cancelled and that handle dropped; the remaining handles keep working. (b) blocking
+// client with a write timeout configured: neither an idle pause nor a reply slower than that
+// timeout fails the connection (a write timeout bounds writes only).
+fn client_survives_cancel_and_idle() -> Result<String, String> {
+    use futures_util::{SinkExt, StreamExt};
+    use repe::tokio_tungstenite::tungstenite::Message as WsMessage;
+    use std::io::Write as _;
+    let rt = tokio::runtime::Builder::new_multi_thread().worker_threads(2).enable_all().build().unwrap();
+    let ws_part: Result<usize, String> = rt.block_on(async {
+        let mut n = 0;
+        for extra_handles in [0usize, 1, 2] {
+            let listener = tokio::net::TcpListener::bind(("127.0.0.1", 0)).await.map_err(|e| e.to_string())?;
+            let addr = listener.local_addr().unwrap();
+            let (seen_tx, mut seen_rx) = tokio::sync::mpsc::unbounded_channel::<String>();
+            let server = tokio::spawn(async move {
+                let Ok((stream, _)) = listener.accept().await else { return };
+                let Ok(mut ws) = repe::tokio_tungstenite::accept_async(stream).await else { return };
+                while let Some(Ok(frame)) = ws.next().await {
+                    let payload = match frame {
+                        WsMessage::Binary(p) => p,
+                        WsMessage::Close(_) => break,
+                        _ => continue,
+                    };
+                    let Ok(request) = repe::Message::from_slice_exact(&payload) else { break };
+                    let path = request.query_utf8().to_string();
+                    let _ = seen_tx.send(path.clone());
+                    if path == "/slow" {
+                        continue; // never answered
+                    }
+                    let response = repe::Message::builder().id(request.header.id).query_str(&path).query_format(repe::QueryFormat::JsonPointer).body_json(&json!({ "path": path })).unwrap().build();
+                    if ws.send(WsMessage::Binary(response.to_vec().into())).await.is_err() {
+                        break;
+                    }
+                }
+            });
+            let client = repe::WebSocketClient::connect(&format!("ws://{addr}/demo")).await.map_err(|e| e.to_string())?;
+            let keep: Vec<repe::WebSocketClient> = (0..extra_handles).map(|_| client.clone()).collect();
+            client.call_json("/warmup", &json!({})).await.map_err(|e| format!("warm-up call failed: {e}"))?;
+            let _ = seen_rx.recv().await;
+            let worker = client.clone();
+            let cancelled = tokio::spawn(async move { worker.call_json("/slow", &json!({})).await });
+            match tokio::time::timeout(Duration::from_secs(30), seen_rx.recv()).await {
+                Ok(Some(p)) if p == "/slow" => {}
+                _ => return Ok(n), // inconclusive set-up
+            }
+            cancelled.abort();
+            let _ = cancelled.await;
+            tokio::time::sleep(Duration::from_millis(300)).await;
+            for (h, c) in std::iter::once(&client).chain(keep.iter()).enumerate() {
+                match tokio::time::timeout(Duration::from_secs(30), c.call_json("/ok", &json!({ "h": h }))).await {
+                    Ok(Ok(v)) if v["path"] == "/ok" => {}
+                    other => return Err(format!("WebSocket client, {} live handles: after a call made through a further clone was cancelled (and that clone dropped), a call through handle {h} gave {other:?}; the client must keep serving other calls", 1 + extra_handles)),
+                }
+            }
+            drop(keep);
+            drop(client);
+            let _ = tokio::time::timeout(Duration::from_secs(5), server).await;
+            n += 1;
+        }
+        Ok(n)
+    });
+    rt.shutdown_background();
+    let ws_cases = ws_part?;
+    // (b) blocking client with a write timeout
+    let listener = std::net::TcpListener::bind("127.0.0.1:0").map_err(|e| e.to_string())?;
+    let addr = listener.local_addr().unwrap();
+    std::thread::spawn(move || {
+        for conn in listener.incoming() {
+            let Ok(stream) = conn else { break };
+            std::thread::spawn(move || {
+                let mut reader = std::io::BufReader::new(stream.try_clone().unwrap());
+                let mut writer = std::io::BufWriter::new(stream);
+                while let Ok(req) = repe::read_message(&mut reader) {
+                    if req.query == b"/late" {
+                        std::thread::sleep(Duration::from_millis(700));
+                    }
+                    let resp = repe::Message::builder().id(req.header.id).body_json(&json!({"path": req.query_utf8()})).unwrap().build();
+                    if repe::write_message(&mut writer, &resp).is_err() || writer.flush().is_err() {
+                        break;
+                    }
+                }
+            });
+        }
+    });
+    let client = repe::Client::connect(addr).map_err(|e| e.to_string())?;
+    client.set_write_timeout(Some(Duration::from_millis(250))).map_err(|e| e.to_string())?;
+    let steps: [(&str, u64); 4] = [("/a", 0), ("/late", 0), ("/b", 800), ("/c", 0)];
+    for (path, pause) in steps {
+        std::thread::sleep(Duration::from_millis(pause));
+        match client.call_json(path, &json!({})) {
+            Ok(v) if v["path"] == path => {}
+            other => return Err(format!("blocking client with set_write_timeout(250 ms): call {path} (after an idle pause of {pause} ms) gave {other:?}; a write timeout bounds writes, it must not fail a connection that is idle or waiting for a slow reply")),
+        }
+    }
+    Ok(format!("{ws_cases} WebSocket handle counts and 4 blocking calls around a write timeout held"))
 }
